@@ -7,6 +7,7 @@ import (
 	"errors"
 	"fmt"
 	"strings"
+	"time"
 
 	"github.com/celestiaorg/go-header"
 	goheaderp2p "github.com/celestiaorg/go-header/p2p"
@@ -255,13 +256,23 @@ func (syncService *SyncService[H]) setupP2P(ctx context.Context) ([]peer.ID, err
 // If the initialization is successful and the SyncService is already initialized,
 // it starts the syncer by calling StartSyncer.
 // Returns error if initialization or starting of syncer fails.
+// headTrustingPeriod is how long the head of the P2P store is trusted as the anchor of verification: in effect for ever.
+const headTrustingPeriod = 100 * 365 * 24 * time.Hour
+
 func (syncService *SyncService[H]) prepareSyncer(ctx context.Context) error {
 	var err error
 	if syncService.syncer, err = newSyncer(
 		syncService.ex,
 		syncService.store,
 		syncService.sub,
-		[]goheadersync.Option{goheadersync.WithBlockTime(syncService.conf.Node.BlockTime.Duration)},
+		[]goheadersync.Option{
+			goheadersync.WithBlockTime(syncService.conf.Node.BlockTime.Duration),
+			// The stored head must never "expire": go-header replaces a head older than the trusting period
+			// (default two weeks) by whatever a peer calls its head, checking that answer only against itself and
+			// not against the stored head - and that check is the only thing that ties later headers to the
+			// proposer named in genesis. The chain has a single, fixed proposer and no unbonding period.
+			goheadersync.WithTrustingPeriod(headTrustingPeriod),
+		},
 	); err != nil {
 		return err
 	}
